@@ -1396,10 +1396,57 @@ pub fn gen_program(g: &mut Xo, inputs: &BTreeMap<String, InVal>, max_nodes: usiz
     v
 }
 
+/// Names that only differ where a careless representation stops looking: long names that
+/// agree on their first 15 / 16 / 23 / 32 / 64 bytes, one name a prefix of another, case and
+/// whitespace variants, composed vs decomposed Unicode, the empty name.
+pub const HOSTILE_NAMES: [&str; 18] = [
+    // neighbours (2k, 2k+1) are the pair most easily confused with each other
+    "previous_generation_best",
+    "previous_generation_mean",
+    "previous_generation_bes",
+    "previous_generation_be",
+    "sixteen_bytes_16A",
+    "sixteen_bytes_16B",
+    "fifteen_bytes_1a",
+    "fifteen_bytes_1b",
+    "input_000000000000000000000000000000000000000000000000000000000000000001",
+    "input_000000000000000000000000000000000000000000000000000000000000000002",
+    "thirty_two_bytes_of_common_prefix_then_x",
+    "thirty_two_bytes_of_common_prefix_then_y",
+    "X",
+    "x ",
+    "\u{e4}",
+    "a\u{308}",
+    "",
+    " ",
+];
+
 pub fn gen_inputs(g: &mut Xo) -> BTreeMap<String, InVal> {
     let mut m = BTreeMap::new();
-    let n = g.usize_below(INPUT_NAMES.len() + 1);
-    for name in INPUT_NAMES.iter().take(n) {
+    let names: Vec<&str> = if g.chance(1, 3) {
+        // up to five hostile names, in pairs that collide under truncation
+        let mut v: Vec<&str> = Vec::new();
+        let k = 1 + g.usize_below(5);
+        while v.len() < k {
+            let c = *g.pick(&HOSTILE_NAMES);
+            if !v.contains(&c) {
+                v.push(c);
+            }
+            // its neighbour in the table is the one it is most easily confused with
+            if v.len() < k && g.chance(2, 3) {
+                let i = HOSTILE_NAMES.iter().position(|x| *x == c).unwrap_or(0);
+                let nb = HOSTILE_NAMES[i ^ 1];
+                if !v.contains(&nb) {
+                    v.push(nb);
+                }
+            }
+        }
+        v
+    } else {
+        let n = g.usize_below(INPUT_NAMES.len() + 1);
+        INPUT_NAMES.iter().take(n).copied().collect()
+    };
+    for name in names.iter() {
         let v = match g.below(3) {
             0 => InVal::I(gen_int(g)),
             1 => InVal::F(gen_float(g)),
